@@ -566,6 +566,21 @@ func ruleWatchable(c *Ctx, r *R) {
 						if _, ok := st.Val.(*ssa.MakeChan); ok {
 							okC = true
 						}
+					default:
+						// the channel lives in a small struct of its own embedded in the cell (changeSignal: newChangeSignal()): a
+						// channel field of that value which is freshly made
+						if stt, isSt := st.Val.Type().Underlying().(*types.Struct); isSt {
+							for fi := 0; fi < stt.NumFields(); fi++ {
+								if _, isCh := stt.Field(fi).Type().Underlying().(*types.Chan); !isCh {
+									continue
+								}
+								for _, lf := range structFieldLeaves(st.Val, fi, nil, 0, false) {
+									if _, isMk := lf.v.(*ssa.MakeChan); isMk {
+										okC = true
+									}
+								}
+							}
+						}
 					}
 				}
 			}
@@ -729,6 +744,28 @@ func ruleWatchable(c *Ctx, r *R) {
 		key := "xsync.Watchable.Value|return#" + itoa(n)
 		chv := returnedValue(ret, 1)
 		// the placeholder's channel returned directly (the MakeChan stored into it, or its field)
+		if fld, isF := chv.(*ssa.Field); isF {
+			// signal := newChangeSignal(); emptyInner := &watchableInner[T]{changeSignal: signal}; … return zero, signal.c
+			for _, lf := range structFieldLeaves(fld.X, fld.Field, nil, 0, false) {
+				if mk, isMk := lf.v.(*ssa.MakeChan); isMk {
+					chv = mk
+				}
+			}
+		}
+		if _, isMk := chv.(*ssa.MakeChan); !isMk {
+			if ld, isLd := chv.(*ssa.UnOp); isLd && ld.Op == token.MUL {
+				if fa, isFA := ld.X.(*ssa.FieldAddr); isFA {
+					if al, isAl := fa.X.(*ssa.Alloc); isAl && !al.Heap {
+						ls := valueLeaves(chv, nil, 0)
+						if len(ls) == 1 {
+							if mk, isMk := ls[0].v.(*ssa.MakeChan); isMk {
+								chv = mk
+							}
+						}
+					}
+				}
+			}
+		}
 		if _, ok := chv.(*ssa.MakeChan); ok {
 			sawPlaceholder = true
 			r.ok(casOK(b), key, retPos(ret), "the placeholder's channel may be returned only when the CompareAndSwap succeeded; otherwise no Set will ever close it and the observer blocks forever on a stale value")
@@ -739,7 +776,16 @@ func ruleWatchable(c *Ctx, r *R) {
 		fieldBase := func(v ssa.Value) ssa.Value {
 			if ld, ok := v.(*ssa.UnOp); ok {
 				if fa, ok := ld.X.(*ssa.FieldAddr); ok {
-					return fa.X
+					// inner.c through an embedded struct (inner.changeSignal.c): the cell is the outermost base
+					base := fa.X
+					for {
+						hop, isHop := base.(*ssa.FieldAddr)
+						if !isHop || !isPromotedHop(hop.X.Type(), hop.Field) {
+							break
+						}
+						base = hop.X
+					}
+					return base
 				}
 			}
 			ex, ok := v.(*ssa.Extract)
